@@ -9,7 +9,8 @@ sys.path.insert(0, os.path.dirname(here))
 
 
 def _load(n):
-    spec = importlib.util.spec_from_file_location(f'redteam_findings_{n}', os.path.join(here, f'findings_{n}.py'))
+    fname = f'findings_{n}.py' if isinstance(n, int) else f'r2_findings_{n[3:]}.py'
+    spec = importlib.util.spec_from_file_location(f'redteam_findings_{n}', os.path.join(here, fname))
     m = importlib.util.module_from_spec(spec)
     with contextlib.redirect_stdout(io.StringIO()):
         spec.loader.exec_module(m)
@@ -31,6 +32,15 @@ WAIVED = {
     (6, 'P2 '): 'hand-made `props`; module_properties (production) now counts nested classes; closed through gate.apply',
     (6, 'H1 '): 'needs the module context (methods of other classes) that gate.apply passes; closed through gate.apply',
     (5, 'module global rebound by a callee'): 'needs the module context (names declared `global` somewhere in the module); covered by the gate-level pair in equiv_selftest',
+    (22, 'D1c '): 'the only difference is a local left unbound by `except .. as` (NameError for an unbound local is not counted)',
+    (22, 'gate: D1c '): 'as above',
+    (23, 'H4 '): 'assumption: `in` is applied to containers (a membership test does not consume its right operand)',
+    (23, 'H5 '): 'as above',
+    (25, '`key in it` on an iterator'): 'as above',
+    (24, 'R2b '): 'assumption: an object changes only through statements that name it; a bound method handed over as a callback names the method, not the object',
+    (26, 'H1 '): 'assumption: an attribute read fails only through a name the function compares with None / tests for truth, or when the function catches AttributeError',
+    (26, 'Z1 '): 'hand-made `sized` without the `seqs` table; gate._sized passes both and lists are excluded',
+    (26, 'gate: GS1 '): 'classes re-created by a decorator (@dataclass(slots=True)): not modelled; none in the code base',
     (6, 'C5 '): 'assumption: a module-level constant bound once is not rebound from outside its module (the DEBUG-flag limitation, DESIGN 8.7)',
 }
 
@@ -65,6 +75,27 @@ def still_open():
                 total += 1
                 if gate.apply(ast.parse(ma), ast.parse(mb), lambda t: None):
                     out.append((n, 'gate: ' + title))
+        # round 2 (files r2_findings_<n>.py; each has same(a, b, **kw) - file 6 same(a, b, kw) - and GATE_FINDINGS)
+        for n in (1, 2, 3, 4, 5, 6):
+            if not os.path.exists(os.path.join(here, f'r2_findings_{n}.py')):
+                continue
+            m = _load(f'../redteam/r2_findings_{n}'.split('/')[-1].replace('r2_findings_', 'r2_'))
+            equiv.REPO_DEFINED[0] = frozenset()
+            for title, a, b, kw in m.FINDINGS:
+                total += 1
+                kw = kw or {}
+                try:
+                    s = m.same(a, b, kw) if n == 6 else m.same(a, b, **kw)
+                except equiv.NotCanonicalisable:
+                    s = False
+                if s:
+                    out.append((20 + n, title))
+            for entry in getattr(m, 'GATE_FINDINGS', []):
+                title, cur, ref, q = entry[:4]
+                total += 1
+                equiv.REPO_DEFINED[0] = frozenset()
+                if q in gate.apply(ast.parse(cur), ast.parse(ref), lambda t: None):
+                    out.append((20 + n, 'gate: ' + title))
     finally:
         equiv.REPO_DEFINED[0] = saved
     return out, total
